@@ -37,6 +37,15 @@ def run_models(ctx):
         ctx.add_tlc(f"RefsFiles_{cfg} (expects {expect})", r, require_ok=False)
         if expect not in r.violated:
             raise MachineryError(f"model control RefsFiles_{cfg} did not find {expect}: {r.violated}\n{r.output[-1500:]}")
+    # updates through the symbolic ref HEAD while HEAD is re-pointed (F59): the protocol as implemented admits
+    # the non-linearizable history (known finding, same history as RefsLin rejects on the real code); the
+    # protocol that holds HEAD.lock across the update (C git) does not
+    r = tlc.run("RefsSym.tla", "RefsSym_known_symhead.cfg", workers=4, timeout=300)
+    ctx.add_tlc("RefsSym_known_symhead (expects CasViaHeadSound)", r, require_ok=False)
+    if "CasViaHeadSound" not in r.violated:
+        raise MachineryError(f"model control RefsSym_known_symhead did not find CasViaHeadSound: {r.violated}")
+    r = tlc.run("RefsSym.tla", "RefsSym_repaired.cfg", workers=4, timeout=300)
+    ctx.add_tlc("RefsSym_repaired (HEAD.lock held across an update through HEAD: CasViaHeadSound, NoLockLeft)", r)
 
 
 KIND = {"set_if_equals": "cas", "add_if_new": "add", "remove_if_equals": "del", "read": "read", "pack_refs": "pack"}
